@@ -45,8 +45,10 @@ MANIFEST = {
     "note": "Search, not proof. Annotation vocabulary is the builtin set above; custom type names (grib.*, latitude...) are not generated.",
 }
 
-TYPES = {"int": int, "str": str, "float": float, "bytes": bytes, "list": list, "dict": dict, "bool": bool}
-ANNS = [None, "int", "str", "float", "bytes", "list", "dict", "bool"]
+TYPES = {"int": int, "str": str, "float": float, "bytes": bytes, "list": list, "dict": dict, "bool": bool, "object": object}
+# int/bool/object are drawn more often: they are the builtin names in a strict subclass relation (bool < int < object), the only pairs
+# for which "compatible" depends on the direction of the edge
+ANNS = [None, "int", "bool", "object", "int", "bool", "str", "float", "bytes", "list", "dict"]
 PNAMES = ["a", "b", "c", "d"]
 
 _values = {
@@ -59,6 +61,7 @@ _values = {
     "bool": st.booleans(),
 }
 _any_value = st.one_of(*_values.values(), st.none())
+_values["object"] = _any_value  # everything is an object
 
 
 @st.composite
@@ -105,6 +108,26 @@ def programs(draw):
         tasks.append({"func": fi, "calls": calls})
     node_names = ["n0", "n1", "n2", "n3"]
     steps = []
+    if draw(st.integers(0, 2)) == 0:
+        # constructive, well-formed descriptions: every node exists, every edge goes from the default output of an existing node into
+        # a real parameter of an existing node, no static values -- acceptance then depends on the declared types alone
+        for t in tasks:
+            t["calls"] = []
+        used = node_names[: draw(st.integers(2, 4))]
+        of = {}
+        for nm in used:
+            of[nm] = draw(st.integers(0, ntasks - 1))
+            steps.append(["node", nm, of[nm]])
+        for _ in range(draw(st.integers(1, 4))):
+            snk = draw(st.sampled_from(used))
+            pnames = [p["name"] for p in funcs[tasks[of[snk]]["func"]]["params"]]
+            if not pnames:
+                continue
+            steps.append(["edge", draw(st.sampled_from(used)), snk, draw(st.sampled_from(pnames)), draw(st.sampled_from([None, Node.DEFAULT_OUTPUT]))])
+            if draw(st.integers(0, 3)) == 0:
+                steps.append(["build"])
+        steps.append(["build"])
+        return {"funcs": funcs, "tasks": tasks, "steps": steps}
     for _ in range(draw(st.integers(1, 10))):
         k = draw(st.sampled_from(["node", "node", "edge", "edge", "edge", "build"]))
         if k == "node":
@@ -288,6 +311,14 @@ def _build_and_check(jb, m_nodes, m_edges, models, classes):
     if rejected and not problem and not unspecified:
         raise Violation(f"builder rejected a correct description: {res.e} (nodes={m_nodes}, edges={m_edges})", "rejects-good")
     classes.append("rejected" if rejected else "accepted")
+    for (src, snk, into, frum) in m_edges:
+        if src in m_nodes and snk in m_nodes and not isinstance(into, int) and frum == Node.DEFAULT_OUTPUT:
+            o_t, i_t = models[m_nodes[src]]["ret"], models[m_nodes[snk]]["schema"].get(into)
+            if o_t in TYPES and i_t in TYPES and o_t != i_t:
+                if issubclass(TYPES[o_t], TYPES[i_t]):
+                    classes.append("typed_edge_subclass_into_superclass")
+                elif issubclass(TYPES[i_t], TYPES[o_t]):
+                    classes.append("typed_edge_superclass_into_subclass")
     if unspecified:
         classes.append("any_into_typed")
     if rejected:
